@@ -246,9 +246,19 @@ def run_check(prop: str, spec: dict) -> int:
         if hp:
             failures.append(("hygiene", "; ".join(hp[:10])))
         ok, log = translate()
-        if not ok:
-            failures.append(("translator", log))
         target = spec["props_file"]
+        if not ok:
+            # only the modules this property's theorems or model files depend on matter: a module that
+            # cannot be translated breaks exactly the proofs that import it, nothing else
+            failed_mods = re.findall(r"translate (\w+): FAILED", log)
+            deps = set()
+            for t in [target] + list(spec.get("model_files", [])):
+                deps.update(dep_closure(t))
+            relevant = [m for m in failed_mods if f"Gen/{m}.v" in deps]
+            if relevant or not failed_mods:
+                failures.append(("translator", "\n".join(
+                    l for l in log.splitlines() if not failed_mods or any(f"translate {m}:" in l for m in relevant))
+                    or log))
         ok, log = build([target])
         build_ok = ok
         if not ok:
